@@ -3,22 +3,25 @@ import CvModel.PyPrelude
 import CvGen.PyPerm
 import CvGen.PyFamilies
 import CvGen.PyGlobe
+import CvGen.PyRings
 
 namespace Cv.PyGen
 open Cv.Py
 
-def showInts (l : List Int) : String := " ".intercalate (l.map toString)
 class ShowRes (α : Type) where
   render : α → String
-instance : ShowRes (List Int) := ⟨showInts⟩
-instance : ShowRes Bool := ⟨fun b => if b then "true" else "false"⟩
-instance : ShowRes (List (List Int)) := ⟨fun l => " | ".intercalate (l.map showInts)⟩
-instance : ShowRes (List (String × List Int)) := ⟨fun l => " | ".intercalate (l.map fun p => p.1 ++ ": " ++ showInts p.2)⟩
-instance : ShowRes RawDef := ⟨fun d =>
-  "gens: " ++ " | ".intercalate (d.gens.map showInts) ++
-  " ; central: " ++ (match d.central with | some c => showInts c | none => "none") ++
-  " ; names: " ++ (match d.names with | some c => " | ".intercalate c | none => "none") ++
-  " ; name: " ++ (match d.name with | some c => c | none => "none")⟩
+class ShowFlat (α : Type) where
+  flat : α → String
+instance : ShowRes Int := ⟨fun i => toString i⟩
+instance : ShowRes Bool := ⟨fun b => if b then "True" else "False"⟩
+instance : ShowRes String := ⟨fun s => "'" ++ s ++ "'"⟩
+instance {α : Type} [ShowRes α] : ShowRes (List α) := ⟨fun l => "[" ++ ", ".intercalate (l.map ShowRes.render) ++ "]"⟩
+instance {α : Type} [ShowRes α] : ShowRes (Option α) := ⟨fun o => match o with | some a => ShowRes.render a | none => "None"⟩
+instance (priority := low) {α : Type} [ShowRes α] : ShowFlat α := ⟨ShowRes.render⟩
+instance {α β : Type} [ShowRes α] [ShowFlat β] : ShowFlat (α × β) := ⟨fun p => ShowRes.render p.1 ++ ", " ++ ShowFlat.flat p.2⟩
+instance {α β : Type} [ShowRes α] [ShowFlat β] : ShowRes (α × β) := ⟨fun p => "(" ++ ShowRes.render p.1 ++ ", " ++ ShowFlat.flat p.2 ++ ")"⟩
+instance : ShowRes RawDef := ⟨fun d => "create(" ++ ShowRes.render d.gens ++ ", " ++ ShowRes.render d.names ++ ", " ++
+  ShowRes.render d.central ++ ", " ++ ShowRes.render d.name ++ ")"⟩
 def showRes {α : Type} [ShowRes α] : Option α → String
   | some a => "ok ; " ++ ShowRes.render a
   | none => "none"
@@ -66,6 +69,14 @@ def dispatch (fn : String) (args : List (List Int)) : String :=
   | "Globe.help_cyclic", (a0 :: _) :: (a1 :: _) :: (a2 :: _) :: [] => showRes (Cv.PyGen.Globe.help_cyclic a0 a1 a2)
   | "Globe.globe_gens", (a0 :: _) :: (a1 :: _) :: [] => showRes (Cv.PyGen.Globe.globe_gens a0 a1)
   | "Globe.globe_puzzle", (a0 :: _) :: (a1 :: _) :: [] => showRes (Cv.PyGen.Globe.globe_puzzle a0 a1)
+  | "Rings._circular_shift", a0 :: (a1 :: _) :: [] => showRes (Cv.PyGen.Rings._circular_shift a0 a1)
+  | "Rings._get_intersections", (a0 :: _) :: (a1 :: _) :: [] => showRes (Cv.PyGen.Rings._get_intersections a0 a1)
+  | "Rings._create_right_ring", (a0 :: _) :: (a1 :: _) :: (a2 :: _) :: (a3 :: _) :: (a4 :: _) :: [] => showRes (Cv.PyGen.Rings._create_right_ring a0 a1 a2 a3 a4)
+  | "Rings.hungarian_rings_permutations", (a0 :: _) :: (a1 :: _) :: (a2 :: _) :: (a3 :: _) :: (a4 :: _) :: [] => showRes (Cv.PyGen.Rings.hungarian_rings_permutations a0 a1 a2 a3 a4)
+  | "Rings.get_santa_parameters_from_n", (a0 :: _) :: [] => showRes (Cv.PyGen.Rings.get_santa_parameters_from_n a0)
+  | "Rings.get_pair_variants", (a0 :: _) :: (a1 :: _) :: [] => showRes (Cv.PyGen.Rings.get_pair_variants a0 a1)
+  | "Rings.hungarian_rings_generators", (a0 :: _) :: (a1 :: _) :: (a2 :: _) :: (a3 :: _) :: [] => showRes (Cv.PyGen.Rings.hungarian_rings_generators a0 a1 a2 a3)
+  | "Rings.get_group", (a0 :: _) :: [] => showRes (Cv.PyGen.Rings.get_group a0)
   | _, _ => "ERR pygen"
 
 end Cv.PyGen
